@@ -94,14 +94,22 @@ class NP:
         return out
 
     def ceil(self, a):
-        if isinstance(a, Sym):
-            return _np.ceil(float(a))
-        return _np.ceil(a)
+        return self._round(a, '__ceil__', _np.ceil)
 
     def floor(self, a):
+        return self._round(a, '__floor__', _np.floor)
+
+    def _round(self, a, meth, f):
+        # floor / ceil of symbolic values stay symbolic (z3 to_int); concrete values as numpy does (floats)
         if isinstance(a, Sym):
-            return _np.floor(float(a))
-        return _np.floor(a)
+            r = getattr(a, meth)()
+            return r if isinstance(r, Sym) else float(r)
+        arr = _np.asarray(a)
+        if arr.dtype == object and has_sym(arr):
+            out = _np.empty(arr.shape, dtype=object)
+            out.flat = [self._round(v, meth, f) for v in arr.flat]
+            return out
+        return f(a)
 
     def interp(self, x, xp, fp):
         if has_sym(_np.asarray(fp, dtype=object)):
